@@ -79,6 +79,9 @@ def child_env(extra=None):
         env.pop(k, None)
     env["RUST_BACKTRACE"] = "0"
     env["CARGO_NET_OFFLINE"] = "true"
+    if os.environ.get("VERIF_COV"):
+        os.makedirs(os.path.join(BUILD, "cov"), exist_ok=True)
+        env["LLVM_PROFILE_FILE"] = os.path.join(BUILD, "cov", "p-%p-%8m.profraw")
     if extra:
         env.update(extra)
     return env
@@ -338,6 +341,16 @@ def build_harness(gname="core"):
         lock = os.path.join(d, "Cargo.lock")
         if not os.path.exists(lock):
             subprocess.run(["cp", os.path.join(REPO, "Cargo.lock"), lock], check=True)
+        if os.environ.get("VERIF_COV"):
+            # development aid (bin/coverage): the same harness built with source-based coverage
+            # instrumentation (stable rustc -C instrument-coverage; the report tools come from the nightly llvm-tools), into its own target directory
+            p = subprocess.run(["cargo", "build", "--release", "--offline", "--bin", "acbh_" + gname,
+                                "--target-dir", os.path.join(d, "target-cov")],
+                               cwd=d, env=child_env({"RUSTFLAGS": "-C instrument-coverage"}),
+                               stdout=subprocess.PIPE, stderr=subprocess.STDOUT, text=True)
+            if p.returncode != 0:
+                return None, p.stdout
+            return os.path.join(d, "target-cov", "release", "acbh_" + gname), p.stdout
         p = subprocess.run(["cargo", "build", "--release", "--offline", "--bin", "acbh_" + gname],
                            cwd=d, env=child_env(), stdout=subprocess.PIPE, stderr=subprocess.STDOUT, text=True)
         if p.returncode != 0:
